@@ -122,6 +122,8 @@ fn requests_memory(op: &Op) -> bool {
     match op {
         Op::Alloc { size, .. } => *size > 0,
         Op::Typed { op, .. } => !matches!(op, TypedOp::SliceU8(0) | TypedOp::SliceU64(0) | TypedOp::SliceArr3(0) | TypedOp::SliceForU64(0) | TypedOp::AllocSliceCopyU8(0) | TypedOp::AllocUninitSliceU8(0) | TypedOp::Layout(0, _) | TypedOp::SliceOverflow | TypedOp::AllocUnit),
+        // by_value needs an allocated arena and creates the first chunk itself
+        Op::Enter(Region::ByValue) => true,
         Op::Nop | Op::Enter(_) | Op::Exit | Op::ExitUnwind | Op::Reset | Op::ResetToStart | Op::Dealloc { .. } | Op::DeallocTyped { .. } | Op::Orig(_) => false,
         Op::Reserve { n, .. } => *n > 0,
         Op::VecBuf { act, .. } => !matches!(act, VecAct::PopShrinkFit | VecAct::PopIntoBoxed | VecAct::Drop),
